@@ -90,7 +90,8 @@ def _yield_schema_tokens(reader: StringIO):
     in_bracket = False
     # empty str == EOF in Python
     while line := reader.readline():
-        line = line.strip()
+        # ASCII blanks only, see `_SCHEMA_LINE_TOKENS_RE`
+        line = line.strip(" \t\r\n\x0b\x0c")
         # Whitespace-only lines are automatically skipped
         if not line:
             continue
